@@ -136,7 +136,7 @@ def window(model: str, Tn: float, win: str, s: float):
 
 
 # ----------------------------------------------------------------------------- building real objects
-def build(am, Tn, high, low, TlimLo, TlimHi, rTol, extrapolate=True, stages=None):
+def build(am, Tn, high, low, TlimLo, TlimHi, rTol, extrapolate=True, stages=None, coarse=30.0):
     """Real objects, the way WallGoManager.initTemperatureRange builds them. Returns (thermo, None) or
     (thermo-or-None, (stage, exception))."""
     import WallGo
@@ -161,7 +161,11 @@ def build(am, Tn, high, low, TlimLo, TlimHi, rTol, extrapolate=True, stages=None
         dT = 0.1 * Tn * rTol**0.25  # manager.py: temperatureVariationScale * phaseTracerTol**0.25
         for st in stages or (["trace"] + (["extrapolate"] if extrapolate else [])):
             stage = st
-            if st == "trace":
+            if st in ("trace", "trace-coarse"):
+                if st == "trace-coarse":
+                    dT = coarse * 0.1 * Tn * rTol**0.25  # a first, coarse look at the phases on the same objects (re-traced finer by a later stage)
+                else:
+                    dT = 0.1 * Tn * rTol**0.25
                 if isinstance(TlimLo, tuple):  # per-phase limits: TlimLo = (lo, hi) of the high-T phase, TlimHi = of the low-T phase
                     th.freeEnergyHigh.tracePhase(TlimLo[0], TlimLo[1], dT, rTol=rTol)
                     th.freeEnergyLow.tracePhase(TlimHi[0], TlimHi[1], dT, rTol=rTol)
@@ -418,7 +422,9 @@ def case_eos(p: dict) -> dict:
     if not (oH.exists(Tn) and oL.exists(Tn)):
         return r.result(inadmissible="phases do not both exist at Tn")
     lo, hi = window(model, Tn0, win, s)
-    th, err = build(am, Tn, high, low, lo, hi, rTol)
+    th, err = build(am, Tn, high, low, lo, hi, rTol, stages=p.get("stages"), coarse=p.get("coarse", 30.0))
+    if p.get("stages"):
+        r.tag("stages=" + ",".join(p["stages"]))
     if err is not None:
         stage, ex = err
         if stage == "extrapolate":
@@ -605,13 +611,27 @@ def hist_cases(tier: str) -> list[dict]:
     return out
 
 
+def retrace_cases(tier: str) -> list[dict]:
+    """The complete C10 relation set on objects with a HISTORY: both phases traced coarsely (30 x the step for the wide window, 3 x for the narrow ones), the object used
+    (setExtrapolate evaluates values and derivatives), then traced again with the manager's step and extrapolated again - the
+    way a quick look is refined on the same Thermodynamics object. Everything reported must describe the LAST table."""
+    out = []
+    for c in eos_cases(tier):
+        if c["s"] == 1.0 and c["win"] in ("inside", "wide", "stagger-high-inner"):
+            for name, stages in (("coarse,extrapolate,fine,extrapolate", ["trace-coarse", "extrapolate", "trace", "extrapolate"]),
+                                 ("coarse,fine,extrapolate", ["trace-coarse", "trace", "extrapolate"]),
+                                 ("fine,extrapolate,fine,extrapolate", ["trace", "extrapolate", "trace", "extrapolate"])):
+                out.append(dict(c, stages=stages, coarse=30.0 if c["win"] == "wide" else 3.0, id=c["id"] + ",history=" + name))
+    return out
+
+
 # ----------------------------------------------------------------------------- entry points
 def eos_tight_cases(tier: str) -> list[dict]:
     """phaseTracerTol = 1e-8 (100 x tighter than the default): thorough tier only."""
     return [] if tier == "quick" else eos_cases(tier, rtols=(1e-8,))
 
 
-SECTIONS = {"eos": (eos_cases, case_eos), "eos_tight": (eos_tight_cases, case_eos), "hist": (hist_cases, case_hist)}
+SECTIONS = {"eos": (eos_cases, case_eos), "eos_tight": (eos_tight_cases, case_eos), "hist": (hist_cases, case_hist), "retrace": (retrace_cases, case_eos)}
 
 
 def run(ctx):
@@ -624,7 +644,7 @@ def run(ctx):
             continue
         res = ctx.run_lattice(name, cases, fn, timeout=280.0)
         ctx.note(f"{name}_cases", len(cases))
-        if name.startswith("eos"):
+        if name.startswith("eos") and name != "retrace":
             # non-vacuity: the reference unit system must be admissible for every model/T_n/window
             bad = [c["id"] for c, x in zip(cases, res) if c["s"] == 1.0 and x.get("verdict") == "inadmissible"]
             ctx.note(f"{name}_inadmissible_at_s=1", bad)
